@@ -379,5 +379,8 @@ func (m *MC) Close() error {
 // connection has neither).
 func (m *MC) Pending() (int, int) { return len(m.out), len(m.in) }
 
+// Broken reports whether the connection was closed by an injected fault or by Close.
+func (m *MC) Broken() bool { return m.broken || m.Closed > 0 }
+
 // Requests returns the number of requests executed.
 func (m *MC) Requests() int { return m.reqs }
